@@ -68,6 +68,10 @@ def main(tier):
     nctx = 4 if tier == 'quick' else 5
     for cname, pre, suf in enum_cf.contexts():
         plans.append(('ctx:' + cname, Sm, pm, [], rm, nctx, in_ii, mark, False, (pre, suf)))
+    for T in 'IfF':
+        S3, p3, l3, r3, g3 = sigma_typed(T, 'iI', groupings[0])
+        for cname, pre, suf in enum_cf.typed_contexts(T, S3):
+            plans.append(('ctx-typed-%s:%s' % (T, cname), S3, p3, list(g3), r3, 3 if tier == 'quick' else 4, in_iI, [], False, (pre, suf)))
     if tier == 'thorough':
         # extension passes, cheapest first: only bodies with exactly N+1 instructions; the deadline may cut them short (reported per alphabet)
         for T in 'IfF':
